@@ -578,8 +578,9 @@ class Model(CallsMixin, BuiltinsMixin):
         ua, ub = a.unit, b.unit
         if ua is not None and ub is not None:
             out.unit = ua + ub
-        if a.deg is not None and b.deg is not None:
-            out.deg = _dadd(a.deg, b.deg, 1)
+        da_, db_ = self.deg_of(a), self.deg_of(b)
+        if da_ is not None and db_ is not None and (da_ or db_):
+            out.deg = _dadd(da_, db_, 1)
         if a.cnt is not None and b.cnt is not None:
             out.cnt = (a.cnt[0] * b.cnt[0], a.cnt[1] * b.cnt[1])
         out.orth = self.orth_matmul(a, b)
